@@ -32,8 +32,11 @@ BadCases == {[lens |-> c[1], strategy |-> s, seed |-> 11, epoch |-> 0, pipeline 
 HoldRun(th, ms) == [Run(0, 1, 0, 0 - 1, 0, th, 1, FALSE, FALSE, 2, FALSE) EXCEPT !.distributed = FALSE] @@ [hold_ms |-> ms]
 HoldCases == {[lens |-> <<7>>, strategy |-> "sequential", seed |-> 11, epoch |-> 0, pipeline |-> "none",
                runs |-> <<Run(0, 1, 0, 0 - 1, 0, 0, 1, FALSE, FALSE, 1, TRUE), HoldRun(th, 2600)>>] : th \in {2, 4}}
+\* limit 0: the empty stream (the validation part of a skip = 0 / limit = 0 split), not "no limit"
+ZeroLimit == {[lens |-> l, strategy |-> s, seed |-> 11, epoch |-> 0, pipeline |-> "none", runs |-> RunsOf(w, sk, 0, 0, FALSE, 2)] :
+                l \in {<<5>>, <<2, 4>>}, s \in {"sequential", "weighted"}, w \in {1, 3}, sk \in {0, 1}}
 VARIABLE x
 Init == x = 0 /\ ndJsonSerialize(IOEnv.OUT, SetToSeq({c \in Cases : c.strategy # "weighted" \/ \A k \in 1..Len(c.lens) : c.lens[k] > 0})
-                                                  \o SetToSeq(BadCases) \o SetToSeq(HoldCases))
+                                                  \o SetToSeq(BadCases) \o SetToSeq(HoldCases) \o SetToSeq(ZeroLimit))
 Next == UNCHANGED x
 =============================================================================
